@@ -41,6 +41,8 @@ CLAIMS = {
             "Lean theorems on new_cyclic frames + correspondence + fault injection in closure"),
     "C15": ("Trigger decision iff documented disjunction; threshold after adjust is D*2^k >= D, > allocated, not needlessly high - proved for exact fractions and for the f64 product as computed (round-to-nearest-even model), for all inputs, parametric in D (regenerated). Tie: hook-based differential test of Config::adjust/should_collect + machine-level threshold after every op.",
             "Lean proof (policy arithmetic, unbounded) + differential test of adjust/should_collect"),
+    "C16": ("All counter-word operations (strong, tracing, weak words) proved to saturate exactly at MAX with the word unchanged, never produce the reserved value, never spill into the flag bits (omega, for all words; limits regenerated from the sources); clone/upgrade at the limit proved to only start unwinding. Tie: EXHAUSTIVE comparison of every operation on all 2^16 words between the compiled crate and the model (complete for these finite functions), the C16 rule evaluated directly on the crate's table, and boundary programs (16381/16382/16383 clones, 32766/32767/32768 weaks, mixed clone+upgrade, then collection).",
+            "Lean proof (word arithmetic, omega) + exhaustive 2^16 word-table correspondence + boundary programs"),
 }
 
 
